@@ -82,6 +82,12 @@ type world struct {
 	startMode     int
 	// handler stubs
 	openOutcome func(path string) int
+	// socket deadline of the host end (Ping)
+	onlyRun      bool // launches always succeed (harnesses that are not about launch failures)
+	hostConn     unsafe.Pointer
+	hostDeadline bool
+	deadlineGen  int
+	declinedGen  int
 }
 
 type mfile struct {
@@ -97,6 +103,20 @@ func (w *world) ep(s *socket) *endpoint { return w.eps[s.Socket] }
 
 var errBroken = errors.New("model: transport lost")
 var errEOF = errors.New("EOF")
+
+// what Go's net package reports for I/O on a connection this process has closed itself
+var errClosed error
+
+func initErrClosed() {
+	if net.ErrClosed == nil {
+		// package net is not initialised in the interpreter (no real network I/O happens)
+		net.ErrClosed = errors.New("use of closed network connection")
+	}
+	errClosed = &net.OpError{Op: "read", Net: "unixpacket", Err: net.ErrClosed}
+	if os.ErrDeadlineExceeded == nil {
+		os.ErrDeadlineExceeded = errors.New("i/o timeout")
+	}
+}
 
 // maybeCrash: C16 - the controlling process may be SIGKILLed at any of its visible
 // operations: all its threads vanish, its socket end closes.
@@ -137,7 +157,10 @@ func modelSend(s *socket, e any, msg unixsocket.Msg) error {
 	w.maybeCrash(ep)
 	w.maybeCancel()
 	w.maybeBreak()
-	if ep.l.broken || ep.l.closed[ep.side] {
+	if ep.l.closed[ep.side] {
+		return errClosed
+	}
+	if ep.l.broken {
 		return errBroken
 	}
 	if ep.l.closed[1-ep.side] {
@@ -174,10 +197,28 @@ func modelRecv(s *socket, e any) (unixsocket.Msg, error) {
 	sym.Yield()
 	w.maybeCrash(ep)
 	l := ep.l
-	sym.WaitUntil(func() bool {
-		return len(l.q[ep.side]) > 0 || l.closed[1-ep.side] || l.closed[ep.side] || l.broken
-	})
-	if l.broken || l.closed[ep.side] {
+	expiring := func() bool {
+		pr := w.prog
+		return ep.side == 0 && w.hostDeadline && w.declinedGen != w.deadlineGen && pr != nil && pr.started && !pr.ended
+	}
+	for {
+		sym.WaitUntil(func() bool {
+			return len(l.q[ep.side]) > 0 || l.closed[1-ep.side] || l.closed[ep.side] || l.broken || expiring()
+		})
+		if len(l.q[ep.side]) == 0 && !l.closed[1-ep.side] && !l.closed[ep.side] && !l.broken && expiring() {
+			if sym.Bool("deadline_expires") {
+				sym.Reach("deadline-expired")
+				return msg, &net.OpError{Op: "read", Net: "unixpacket", Err: os.ErrDeadlineExceeded}
+			}
+			w.declinedGen = w.deadlineGen
+			continue
+		}
+		break
+	}
+	if l.closed[ep.side] {
+		return msg, errClosed
+	}
+	if l.broken {
 		return msg, errBroken
 	}
 	if len(l.q[ep.side]) == 0 {
@@ -244,6 +285,10 @@ const (
 func (w *world) modelFork(r *forkexec.Runner, argv0 *byte, argv, env []*byte, workdir, hostname, domainname, pivotRoot *byte, p [2]int) (uintptr, syscall.Errno) {
 	syscall.ForkLock.Lock() // released by the real Start
 	sym.Yield()
+	if w.onlyRun {
+		w.startMode = startSyncThenRun
+		return 77, 0
+	}
 	w.startMode = sym.Choose("start_mode", startModes)
 	if w.startMode == startFailsEarly && sym.Bool("clone_fails") {
 		return 0, syscall.EAGAIN
@@ -337,6 +382,7 @@ func (w *world) modelWait4(pid int, ws *syscall.WaitStatus, options int, ru *sys
 
 func newWorld() *world {
 	kern.InstallContext()
+	initErrClosed()
 	k := kern.NewKernel()
 	kern.K = k
 	w := &world{k: k, l: &link{}, eps: map[*unixsocket.Socket]*endpoint{}, files: map[*os.File]*mfile{}}
@@ -354,7 +400,31 @@ func newWorld() *world {
 	sym.Intercept(P+"SendMsg", modelSend)
 	sym.Intercept(P+"RecvMsg", modelRecv)
 	sym.Intercept("(*github.com/criyle/go-sandbox/pkg/unixsocket.Socket).Close", modelSockClose)
-	sym.Intercept("(*net.conn).SetDeadline", func(c unsafe.Pointer, t time.Time) error { return nil })
+	// promoted (*net.conn).Close as called by Destroy (the compiler selects the embedded conn directly)
+	hostConn, initConn := sym.InnerPtr(hostSock.Socket.UnixConn), sym.InnerPtr(initSock.Socket.UnixConn)
+	w.hostConn = hostConn
+	sym.Intercept("(*net.conn).Close", func(c unsafe.Pointer) error {
+		switch c {
+		case hostConn:
+			return modelSockClose(hostSock.Socket)
+		case initConn:
+			return modelSockClose(initSock.Socket)
+		}
+		sym.Assert(false, "model: Close of an unknown connection")
+		return nil
+	})
+	sym.Intercept("(*net.conn).SetDeadline", func(c unsafe.Pointer, t time.Time) error {
+		// Go net: a deadline covers pending and future I/O of the connection.  The only unbounded
+		// duration of the model is a running program, so an armed deadline can only expire while
+		// the side waits for a program to end (see modelRecv).
+		if c == w.hostConn {
+			w.hostDeadline = !t.IsZero()
+			if w.hostDeadline {
+				w.deadlineGen++
+			}
+		}
+		return nil
+	})
 	sym.Intercept("github.com/criyle/go-sandbox/pkg/forkexec.forkAndExecInChild", w.modelFork)
 	sym.Intercept("github.com/criyle/go-sandbox/pkg/forkexec.syncWithChild", w.modelSync)
 	sym.Intercept("syscall.Socketpair", func(domain, typ, proto int) ([2]int, error) { return [2]int{90, 91}, nil })
@@ -363,7 +433,7 @@ func newWorld() *world {
 	sym.Intercept("syscall.Getuid", func() int { return 0 })
 	sym.Intercept("syscall.Getgid", func() int { return 0 })
 	sym.Intercept("github.com/criyle/go-sandbox/container.lookPath", func(name string, env []string) (string, error) {
-		if sym.Bool("lookup_fails") {
+		if !w.onlyRun && sym.Bool("lookup_fails") {
 			sym.Reach("lookup-fails")
 			return "", &fs.PathError{Op: "lookpath", Path: name, Err: syscall.ENOENT}
 		}
